@@ -14,7 +14,7 @@ from harness.c09 import r_tok
 from harness.common import tok_str
 from vk.core import Case, Ctx
 
-GEN_MODULES: List[str] = ["C09Gena", "C10Notify", "C08Types"]
+GEN_MODULES: List[str] = ["C09Gena", "C10Notify", "C08Types", "C11Race"]
 MANIFEST = {
     "design_ref": "§5 C11",
     "text": ("Lean theorems over the event-driven model (subscribe started / NOTIFY arrived / SUBSCRIBE response arrived; "
@@ -43,7 +43,9 @@ RULE = ("schedules over {async_subscribe(svc) started, NOTIFY arrives, SUBSCRIBE
         "non-trivial = at least one NOTIFY arrived before the response that granted its SID")
 EXHAUSTIVE = {"quick": False, "thorough": True}
 ASSUMPTIONS = [
-    "handle_notify and the tail of async_subscribe run without suspending (no await that yields inside them)",
+    "asyncio atomicity between awaits; that handle_notify and the tail of async_subscribe contain no other suspension point is read "
+    "from the source (Gen.C11Race, theorem atomicity_pinned) and probed: the scheduler steps the completing call turn by turn and "
+    "delivers the next NOTIFYs of the schedule while it has not returned",
     "one subscribe call at a time per service, none after a grant (a failed call may be repeated); SIDs granted at most once",
     "property sets are well-formed XML naming each variable at most once; ASCII values",
 ]
@@ -83,6 +85,16 @@ class watchdog:
         return False
 
 
+async def deliver(eh, nt, nts, sid, body, pad, style, tags) -> str:
+    try:
+        with watchdog():
+            st = await eh.handle_notify(c09env.notify_headers(nt, nts, sid, style), c09env.render_body(body, pad, style))
+        return f"out notified status {int(st)}"
+    except Exception as e:  # noqa: BLE001
+        tags.add("exc:" + c09env.exc_tok(e))
+        return "out notified exc " + c09env.exc_tok(e)
+
+
 async def settle():
     for _ in range(6):
         await asyncio.sleep(0)
@@ -120,7 +132,9 @@ async def _run(recipe, lines, tags):
     nontrivial = False
     early = set()
     routed = set()
-    for op in recipe["ops"]:
+    ops = recipe["ops"]
+    pre: Dict[int, str] = {}     # NOTIFYs already delivered while a subscribe call was completing: op index -> `out` line
+    for idx, op in enumerate(ops):
         kind = op[0]
         c09env.TICK[0] = k
         if kind == "start":
@@ -135,7 +149,7 @@ async def _run(recipe, lines, tags):
                 tasks[i] = loop.create_task(eh.async_subscribe(svcs[i], timedelta(seconds=t)))
                 await settle()
                 lines.append(f"ev start {i} {t}")
-                method, url, headers, _ = rq.log[-1]
+                method, url, headers = rq.log[-1][:3]
                 hs = ",".join(f"{k_}={tok_str(v)}" for k_, v in sorted((k2.upper(), str(v2)) for k2, v2 in headers.items()))
                 lines.append(f"out sent {method} {c09env.svc_index(url)} {hs}")
         elif kind == "notify":
@@ -145,13 +159,10 @@ async def _run(recipe, lines, tags):
             lines.append(f"ev notify {c09env.opt_tok(nt)} {c09env.opt_tok(nts)} {c09env.opt_tok(sid)} {c09env.body_tok(body)}")
             if sid is not None and sid not in routed:
                 early.add(sid)
-            try:
-                with watchdog():
-                    st = await eh.handle_notify(c09env.notify_headers(nt, nts, sid, style), c09env.render_body(body, pad, style))
-                lines.append(f"out notified status {int(st)}")
-            except Exception as e:  # noqa: BLE001
-                lines.append("out notified exc " + c09env.exc_tok(e))
-                tags.add("exc:" + c09env.exc_tok(e))
+            if idx in pre:
+                lines.append(pre[idx])       # it arrived while the previous subscribe call was between wake-up and return
+            else:
+                lines.append(await deliver(eh, nt, nts, sid, body, pad, style, tags))
             tags.add("notify:" + ("early" if sid not in routed else "live"))
         elif kind == "respond":
             _, i, react = op
@@ -165,6 +176,22 @@ async def _run(recipe, lines, tags):
                 hung = False
                 try:
                     with watchdog():
+                        # step the completing call one loop turn at a time; while it has woken up but not returned, the next
+                        # NOTIFYs of the schedule arrive NOW (on the unchanged code the call returns within the first turn)
+                        await asyncio.sleep(0)
+                        j = idx + 1
+                        for _turn in range(6):
+                            if tasks[i].done():
+                                break
+                            if j < len(ops) and ops[j][0] == "notify":
+                                o = ops[j]
+                                c09env.TICK[0] = k + (j - idx)
+                                st_ = o[6] if len(o) > 6 and o[6] is not None else k + (j - idx)
+                                pre[j] = await deliver(eh, o[1], o[2], o[3], o[4], o[5] if len(o) > 5 else "", st_, tags)
+                                tags.add("notify:inside-completing-call")
+                                j += 1
+                            await asyncio.sleep(0)
+                        c09env.TICK[0] = k
                         await settle()
                 except Hang:
                     hung = True
